@@ -34,7 +34,8 @@ CHILD = os.path.join(harness.VERIF, "checks", "c15_child.py")
 def cases(tier, seed):
     rng = harness.rng_for(seed, ID, "cases")
     masks = [1, 2, 5, 16]
-    envs = [None, 0, 1, 3, 64]
+    # (the variable is text: spellings int() accepts - blanks, a trailing newline, a leading plus - mean the same number)
+    envs = [None, 0, 1, 3, 64, " 3", "+1", "2\n", "3 "]
     backends = ["loky", "threading", "multiprocessing", "default"]
     combos = [(m, e, b) for m in masks for e in envs for b in backends]
     rng.shuffle(combos)
@@ -44,7 +45,7 @@ def cases(tier, seed):
         tm = None
         if i % 4 == 1 and m >= 5:
             tm = [1, 2, 3][(i // 4) % 3]      # everything is observed from a non-main thread that narrowed its own mask
-        cpus = max(1, min(tm or m, 16, e if e is not None else 16))
+        cpus = max(1, min(tm or m, 16, int(e) if e is not None else 16))
         rng2 = harness.rng_for(seed, ID, "case", i)
         rng_run = sorted({1, -1, 3, rng2.choice([2, 4, cpus, cpus + 1, 2 * cpus]), rng2.choice([-2, -cpus, -cpus - 1, -2 * cpus])} - {0})
         rng_run = [x for x in rng_run if abs(x) <= 10]
